@@ -113,6 +113,7 @@ class Cover:
         self.other_clauses = {}
         self.violations = {}
         self.timing = {}
+        self.reported = set()
 
 
 def attribute(m, c, primary):
@@ -197,7 +198,10 @@ def judge(ctx, cov, results):
                 cov.other_clauses[v['key']] = cov.other_clauses.get(v['key'], 0) + 1
                 continue
             cov.violations[v['key']] = cov.violations.get(v['key'], 0) + 1
-            ctx.violation(v['sig'], v['text'], replay=v['replay'])
+            if v['replay'] is not None or v['key'] not in cov.reported:
+                # once per signature and origin (with the behaviour to replay); the occurrences are counted above
+                cov.reported.add(v['key'])
+                ctx.violation(v['sig'], v['text'], replay=v['replay'])
 
 
 def _replay_of(r, c, steps, upto):
